@@ -7,6 +7,7 @@ import IodineModel.Lemmas.C11f
 import IodineModel.Props.C08
 import IodineModel.Props.C17
 import IodineModel.Server.Handle
+import IodineModel.Lemmas.HsRef
 /-
 C11 — Automatic negotiation only selects settings that actually work on the path.
 
@@ -753,5 +754,113 @@ theorem forced_not_checked (P : HsProbes) (qtype fragsize : Nat) :
     (clientHandshakeTail ⟨qtype, 86, false, false, fragsize⟩ P).rc = 0 ∧
     (clientHandshakeTail ⟨qtype, 86, false, false, fragsize⟩ P).downenc = 86 := by
   simp [clientHandshakeTail]
+
+/-! ## (D) the concrete handshake machine refines the negotiation abstraction
+
+`Client/Handshake.lean` is the step machine of the whole `client_handshake()` (retry loops, timeouts, `handshake_waitdns`,
+the receive buffer), diffed line by line against the real function in every world run.  A path of C11 — a FIXED
+transformation in front of a deterministic server — answers every probe content with one reply or with none:
+`Client.HsPath` (reply bytes = what `read_dns_withq` hands to the handshake).  `Client.Reaches π` runs the machine on that
+path: the parked `select` gets the path's reply to the outstanding query (right id, right first character) or times out.
+The abstract probe outcomes `π.probes : HsProbes` are computed from the replies by the abstract tests of `Lemmas/C11b.lean`
+(`upencTest`, `downencTest`) and by `fragsize_check` on the reply bytes. -/
+
+/-- **`handshake_refines_negotiation`.**  From `dnsc_use_edns0 = 1` on (DNS mode: `-r`, or the raw login failed), for every
+state the login can leave (`running`, upstream codec still Base32), every path whose replies are non-empty, fit `in[]` and,
+for fragment-size probes, have at least 3 bytes: the concrete machine RETURNS, and
+ * its return value, `dnsc_use_edns0`, the upstream codec `dataenc`, the downstream codec `downenc` and `lazymode` are
+   exactly the ones `C11L.clientHandshakeTail` computes from the configuration and the path's probe outcomes;
+ * the size it asks `handshake_set_fragsize` for is the abstract `setFrag`.
+So `base32_fallback`, `negotiation_succeeds`, `forced_not_checked`, `handshake_sets_probed_size` are statements about the
+step machine that is diffed against client.c (corollaries below). -/
+theorem handshake_refines_negotiation (π : Client.HsPath) (hπ : π.Ok)
+    (h3 : ∀ n buf, π.frag n = some buf → 3 ≤ buf.length)
+    (s : Client.HState) (evs : List Client.CEvent) (hrun : s.c.running = true) (henc : s.c.dataenc = .b32) :
+    ∃ o : Client.HOut, Client.Reaches π (Client.dnsBranch s evs) o ∧ o.1.pos = none ∧
+      o.2.2 = .finished (clientHandshakeTail (Client.cfgOf s) π.probes).rc ∧
+      o.1.c.edns0 = (clientHandshakeTail (Client.cfgOf s) π.probes).edns0 ∧
+      Client.bitsOf o.1.c.dataenc = (clientHandshakeTail (Client.cfgOf s) π.probes).upBits ∧
+      o.1.c.downenc = (clientHandshakeTail (Client.cfgOf s) π.probes).downenc ∧
+      o.1.c.lazymode = (clientHandshakeTail (Client.cfgOf s) π.probes).lazymode ∧
+      (∀ f, (clientHandshakeTail (Client.cfgOf s) π.probes).setFrag = some f →
+        ∃ (sm : Client.HState) (em : List Client.CEvent) (fi : Int),
+          Client.Reaches π (Client.dnsBranch s evs) (Client.setFragEnter sm em fi) ∧ fi.toNat = f) :=
+  Client.hs_refines π hπ h3 s evs hrun henc
+
+/-- `negotiation_succeeds` / `base32_fallback` for the concrete machine: if no fragment probe is answered with "corruption
+at byte 2" and the path answers the probes of some size 3 … N correctly, the handshake machine returns 0 — whatever the codec
+probes, the EDNS0 check and the lazy switch do; and when no probe string comes back identical it stays with Base32 upstream. -/
+theorem handshake_succeeds_on_answering_path (π : Client.HsPath) (hπ : π.Ok)
+    (h3 : ∀ n buf, π.frag n = some buf → 3 ≤ buf.length)
+    (s : Client.HState) (evs : List Client.CEvent) (hrun : s.c.running = true) (henc : s.c.dataenc = .b32)
+    (N : Nat) (hN : 3 ≤ N) (nf : ∀ n, π.probes.frag n ≠ .fatal) (hfrag : ∀ n, 3 ≤ n → n ≤ N → π.probes.frag n = .ok) :
+    ∃ o : Client.HOut, Client.Reaches π (Client.dnsBranch s evs) o ∧ o.1.pos = none ∧ o.2.2 = .finished 0 ∧
+      ((∀ p, π.probes.up p ≠ .same) → o.1.c.dataenc = .b32) := by
+  obtain ⟨o, h1, h2, h3', _, h5, _⟩ := handshake_refines_negotiation π hπ h3 s evs hrun henc
+  have hrc : (clientHandshakeTail (Client.cfgOf s) π.probes).rc = 0 := by
+    refine (base32_fallback _ π.probes).2.2.2.2 nf ?_
+    by_cases h768 : 768 ≤ N; · exact ⟨768, by decide, hfrag _ (by omega) h768⟩
+    by_cases h384 : 384 ≤ N; · exact ⟨384, by decide, hfrag _ (by omega) h384⟩
+    by_cases h192 : 192 ≤ N; · exact ⟨192, by decide, hfrag _ (by omega) h192⟩
+    by_cases h96 : 96 ≤ N; · exact ⟨96, by decide, hfrag _ (by omega) h96⟩
+    by_cases h48 : 48 ≤ N; · exact ⟨48, by decide, hfrag _ (by omega) h48⟩
+    by_cases h24 : 24 ≤ N; · exact ⟨24, by decide, hfrag _ (by omega) h24⟩
+    by_cases h12 : 12 ≤ N; · exact ⟨12, by decide, hfrag _ (by omega) h12⟩
+    by_cases h6 : 6 ≤ N; · exact ⟨6, by decide, hfrag _ (by omega) h6⟩
+    exact ⟨3, by decide, hfrag _ (by omega) hN⟩
+  refine ⟨o, h1, h2, by rw [h3', hrc], ?_⟩
+  intro hns
+  have := (base32_fallback (Client.cfgOf s) π.probes).2.2.1 hns
+  rw [this] at h5
+  cases hd : o.1.c.dataenc <;> rw [hd] at h5 <;> simp [Client.bitsOf] at h5
+
+/-- `forced_not_checked` for the concrete machine: with a downstream codec forced (`-O`), the machine ends with that codec
+whatever the path does — no reply can change it. -/
+theorem handshake_forced_not_checked (π : Client.HsPath) (hπ : π.Ok)
+    (h3 : ∀ n buf, π.frag n = some buf → 3 ≤ buf.length)
+    (s : Client.HState) (evs : List Client.CEvent) (hrun : s.c.running = true) (henc : s.c.dataenc = .b32)
+    (hforced : s.c.downenc ≠ 32) :
+    ∃ o : Client.HOut, Client.Reaches π (Client.dnsBranch s evs) o ∧ o.1.pos = none ∧ o.1.c.downenc = s.c.downenc := by
+  obtain ⟨o, h1, h2, _, _, _, h6, _⟩ := handshake_refines_negotiation π hπ h3 s evs hrun henc
+  refine ⟨o, h1, h2, ?_⟩
+  rw [h6, (Client.tail_fields _ _).2.2.1]
+  simp [Client.cfgOf, hforced]
+
+/-- a transparent path in front of a real server: the EDNS0 / downstream probes come back as the 48 check bytes, the
+upstream probes are echoed, the switches are acknowledged, "Lazy", fragment probes of up to 100 bytes are answered -/
+def examplePath : Client.HsPath :=
+  { edns := some DOWNCODECCHECK1,
+    up := fun p => some ([122, 97, 97, 97] ++ p ++ [46, 116]),
+    switchUp := fun _ => some (Client.ascii "Base128"),
+    down := fun _ => some DOWNCODECCHECK1,
+    switchDown := some (Client.ascii "Base128"),
+    lazy := some (Client.ascii "Lazy"),
+    frag := fun n => if n ≤ 100 ∧ 3 ≤ n then some ([n / 256, n % 256, 107] ++ (List.range (n - 3)).map fun j => (33 + 107 * j) % 256) else none,
+    setFrag := some [4, 174] }
+
+/-- non-vacuity: on that path the abstract negotiation ends with EDNS0, Base128 up (7 bits), Base128 down for a CNAME client
+(`V`), lazy mode and fragment size 98 — and by the theorem so does the step machine -/
+example : clientHandshakeTail ⟨T_CNAME, 32, true, true, 0⟩ examplePath.probes = ⟨0, true, 7, 86, true, some 98⟩ := by
+  decide +kernel
+
+/-- … and the path satisfies the hypotheses of `handshake_refines_negotiation` -/
+example : examplePath.Ok ∧ (∀ n buf, examplePath.frag n = some buf → 3 ≤ buf.length) := by
+  have hfrag : ∀ n buf, examplePath.frag n = some buf → 3 ≤ buf.length ∧ buf.length ≤ 4095 := by
+    intro n buf h
+    simp only [examplePath] at h
+    split at h
+    · injection h with h; subst h; simp; omega
+    · cases h
+  have hup : ∀ p, (Client.upPattern p).length ≤ 100 := by
+    intro p
+    unfold Client.upPattern
+    split <;> decide
+  refine ⟨?_, fun n buf h => (hfrag n buf h).1⟩
+  intro p buf h
+  cases p <;> simp only [Client.HsPath.replyAt, examplePath] at h <;> try (cases h; done)
+  all_goals first
+    | (injection h with h; subst h; decide)
+    | (have := hfrag _ buf h; omega)
+    | (injection h with h; subst h; rename_i pp _; have := hup pp; simp; omega)
 
 end Iodine.C11
